@@ -52,6 +52,12 @@ def run_one(cfg):
         kw["pool"] = pool
     cfg["kwargs"] = kw
     runner = runs.run_standard_case if cfg["kind"] == "std" else runs.run_ins_case
+    from nessai import config as nessai_config
+
+    saved = {k: getattr(nessai_config.livepoints, k) for k in cfg.get("nessai_config", {})}
+    for k, v in cfg.get("nessai_config", {}).items():
+        # documented global settings of the live-point arrays (e.g. single-precision parameters)
+        setattr(nessai_config.livepoints, k, v)
     try:
         res = runner(cfg, want=(), keep_output=True)
         d = digest_of(res)
@@ -63,6 +69,8 @@ def run_one(cfg):
             except Exception:
                 pass
     finally:
+        for k, v in saved.items():
+            setattr(nessai_config.livepoints, k, v)
         if pool is not None:
             pool.terminate()
             pool.join()
